@@ -36,7 +36,9 @@ class Indenter(PostLex, ABC):
 
         yield token
 
-        indent_str = token.rsplit('\n', 1)[1] # Tabs and spaces
+        indent_str = token.rsplit('\n', 1)[-1] # Tabs and spaces
+        if '\n' not in token or indent_str.strip(' \t'):
+            return  # the token ends in a comment, not in indentation
         indent = indent_str.count(' ') + indent_str.count('\t') * self.tab_len
 
         if indent > self.indent_level[-1]:
